@@ -103,6 +103,8 @@ pub enum Op1 {
   Filter(P),
   FilterMap(P),
   Tap,
+  /// `timestamp()` followed by a projection back to the item
+  Timestamp,
   Take(usize),
   Skip(usize),
   TakeWhile(P),
@@ -431,6 +433,7 @@ impl Op1 {
       Op1::Filter(_) => "filter",
       Op1::FilterMap(_) => "filter_map",
       Op1::Tap => "tap",
+      Op1::Timestamp => "timestamp",
       Op1::Take(_) => "take",
       Op1::Skip(_) => "skip",
       Op1::TakeWhile(_) => "take_while",
@@ -1011,6 +1014,7 @@ macro_rules! build_fns {
               })
               .box_it()
             }
+            Op1::Timestamp => s.timestamp().map(|(v, _at)| v).box_it(),
             Op1::Take(n) => s.take(*n).box_it(),
             Op1::Skip(n) => s.skip(*n).box_it(),
             Op1::TakeWhile(p) => {
